@@ -5,10 +5,13 @@ package main
 import (
 	"bytes"
 	"fmt"
+	"math/big"
+	"sort"
 	"strconv"
 	"strings"
 
 	"github.com/icon-project/goloop/common"
+	"github.com/icon-project/goloop/common/db"
 	"github.com/icon-project/goloop/module"
 	"github.com/icon-project/goloop/service/txresult"
 )
@@ -66,7 +69,42 @@ func c26Gen(g *Gen) {
 	for i := 0; i < g.N; i++ {
 		g.Emit("reset")
 		p := c26NewPools(g)
-		switch g.Intn(8) {
+		switch g.Intn(10) {
+		case 8:
+			// several different blooms compressed one after the other, results kept
+			// (block header / receipts / TxShare keep compressed blooms), then used
+			nb := 2 + g.Intn(5)
+			for b := 1; b <= nb; b++ {
+				for l := 0; l < 1+g.Intn(3); l++ {
+					g.Emit("addlog %d %s", b, p.logArgs(g))
+				}
+			}
+			for b := 1; b <= nb; b++ {
+				g.Emit("comp %d", b)
+			}
+			for b := 1; b <= nb; b++ {
+				g.Emit("copycomp 7 %d", b)
+				g.Emit("contain 7 %d", b)
+				g.Emit("qaddr 7 %s", hx(p.addr(g)))
+			}
+		case 9:
+			// receipts finished before the receipt list is serialised (as a block does)
+			nr := 1 + g.Intn(5)
+			for r := 0; r < nr; r++ {
+				for l := 0; l < g.Intn(3); l++ {
+					g.Emit("rcptlog %s", p.logArgs(g))
+				}
+				g.Emit("rcptdone %s", []string{"pay", "pay", "pay", "plain", "nobloom"}[g.Intn(5)])
+				if g.Intn(4) == 0 {
+					g.Emit("comp %d", g.Intn(3)) // unrelated compression in between
+				}
+			}
+			g.Emit("rcptcheck")
+			if g.Intn(3) == 0 {
+				g.Emit("rcptlog %s", p.logArgs(g))
+				g.Emit("rcptdone pay")
+				g.Emit("rcptcheck")
+			}
 		case 0, 1, 2, 3:
 			// receipts 1..4 get logs, block bloom 0 merges them in a random order, queries
 			nr := 1 + g.Intn(4)
@@ -253,14 +291,186 @@ func (it c26Item) String() string {
 // the Bytes() based paths of Merge and Contain.
 type c26Foreign struct{ *txresult.LogsBloom }
 
+// c26Held is a compressed bloom that a caller keeps (as a receipt, a block
+// header or a TxShare message does) while other blooms are compressed.
+type c26Held struct {
+	z     []byte    // the slice exactly as CompressedBytes() returned it
+	cp    []byte    // copy taken at that moment
+	want  []byte    // Bytes() of the bloom it came from, at that moment
+	items []c26Item // (some of) the items that bloom held
+	from  string
+}
+
+// c26Rcpt is a finished receipt kept until the receipt list is serialised.
+type c26Rcpt struct {
+	r     txresult.Receipt
+	want  []byte
+	items []c26Item
+	mode  string
+}
+
+const c26MaxHeld = 12
+
 type c26Runner struct {
 	slots [8]*txresult.LogsBloom
 	items [8]map[string]c26Item
 	n     int
+	held  []c26Held
+	// receipts
+	dbase  db.Database
+	pend   txresult.Receipt
+	pitems map[string]c26Item
+	rcpts  []c26Rcpt
+}
+
+func c26SomeItems(m map[string]c26Item, max int) []c26Item {
+	keys := make([]string, 0, len(m))
+	for k := range m {
+		keys = append(keys, k)
+	}
+	sort.Strings(keys)
+	if len(keys) > max {
+		keys = keys[:max]
+	}
+	res := make([]c26Item, 0, len(keys))
+	for _, k := range keys {
+		res = append(res, m[k])
+	}
+	return res
+}
+
+// hold keeps a compressed form for later; the oldest one is dropped when full.
+func (r *c26Runner) hold(z []byte, lb *txresult.LogsBloom, items map[string]c26Item, from string) {
+	h := c26Held{z: z, cp: append([]byte{}, z...), want: append([]byte{}, lb.Bytes()...), items: c26SomeItems(items, 8), from: from}
+	if len(r.held) >= c26MaxHeld {
+		copy(r.held, r.held[1:])
+		r.held = r.held[:len(r.held)-1]
+	}
+	r.held = append(r.held, h)
+}
+
+// verifyHeld: every compressed bloom still held must be byte for byte what was
+// returned, must decompress to the bloom it came from and report its items.
+func (r *c26Runner) verifyHeld(o *Oracle) {
+	for i := range r.held {
+		h := &r.held[i]
+		o.Check(bytes.Equal(h.z, h.cp), "held-compressed-bytes-changed", "compressed bloom returned earlier (%s) changed while held: now %x, was %x", h.from, h.z, h.cp)
+		back := txresult.NewLogsBloomFromCompressed(h.z)
+		o.Check(bytes.Equal(back.Bytes(), h.want), "held-compressed-bloom-differs", "held compressed bloom (%s) decompresses to %x, want %x", h.from, back.Bytes(), h.want)
+		for _, it := range h.items {
+			o.Check(back.Contain(it.q), "bloom-false-negative-after-compress", "held compressed bloom (%s) after decompress does not contain %v", h.from, it)
+		}
+	}
+}
+
+func (r *c26Runner) Step(t []string, o *Oracle) string {
+	var res string
+	if len(t) > 0 && strings.HasPrefix(t[0], "rcpt") {
+		res = r.stepReceipt(t, o)
+	} else {
+		res = r.step(t, o)
+	}
+	r.verifyHeld(o)
+	return res
+}
+
+func (r *c26Runner) stepReceipt(t []string, o *Oracle) string {
+	switch t[0] {
+	case "rcptlog":
+		if len(t) < 2 {
+			return "bad-op"
+		}
+		a, ok := c26Addr(unhx(t[1]))
+		if !ok {
+			return "bad-op"
+		}
+		var log [][]byte
+		for _, s := range t[2:] {
+			if s == "nil" {
+				log = append(log, nil)
+			} else {
+				log = append(log, unhx(s))
+			}
+		}
+		if r.pend == nil {
+			r.pend = txresult.NewReceipt(r.dbase, module.LatestRevision, &a)
+			r.pitems = map[string]c26Item{}
+		}
+		r.pend.AddLog(&a, log, nil)
+		if len(log) > 0 {
+			c26Put(r.pitems, c26Item{isAddr: true, addr: a})
+			for i, v := range log {
+				if v != nil {
+					c26Put(r.pitems, c26Item{pos: i, val: v})
+				}
+			}
+		}
+		return hx(r.pend.LogsBloom().Bytes())
+	case "rcptdone":
+		if len(t) != 2 || (t[1] != "pay" && t[1] != "plain" && t[1] != "nobloom") {
+			return "bad-op"
+		}
+		if r.pend == nil {
+			var a common.Address
+			r.pend = txresult.NewReceipt(r.dbase, module.LatestRevision, &a)
+			r.pitems = map[string]c26Item{}
+		}
+		rc := r.pend
+		switch t[1] {
+		case "pay":
+			var payer common.Address
+			payer[0] = 1
+			payer[20] = byte(len(r.rcpts) + 1)
+			rc.AddPayment(&payer, big.NewInt(100), big.NewInt(100))
+		case "nobloom":
+			rc.DisableLogsBloom()
+			r.pitems = map[string]c26Item{}
+		}
+		rc.SetResult(module.StatusSuccess, big.NewInt(100), big.NewInt(1000), nil)
+		want := append([]byte{}, rc.LogsBloom().Bytes()...)
+		r.rcpts = append(r.rcpts, c26Rcpt{r: rc, want: want, items: c26SomeItems(r.pitems, 16), mode: t[1]})
+		r.pend, r.pitems = nil, nil
+		o.Count("receipt-" + t[1])
+		return hx(want)
+	case "rcptcheck":
+		if len(t) != 1 {
+			return "bad-op"
+		}
+		if len(r.rcpts) == 0 {
+			return "none"
+		}
+		list := make([]txresult.Receipt, len(r.rcpts))
+		for i := range r.rcpts {
+			list[i] = r.rcpts[i].r
+		}
+		rl := txresult.NewReceiptListFromSlice(r.dbase, list)
+		if err := rl.Flush(); err != nil {
+			return "err"
+		}
+		rl2 := txresult.NewReceiptListFromHash(r.dbase, rl.Hash())
+		outs := make([]string, len(r.rcpts))
+		for i := range r.rcpts {
+			rc2, err := rl2.Get(i)
+			if err != nil {
+				o.Check(false, "receipt-not-restored", "receipt %d of %d cannot be read back: %v", i, len(r.rcpts), err)
+				outs[i] = "err"
+				continue
+			}
+			lb := rc2.LogsBloom()
+			o.Check(bytes.Equal(lb.Bytes(), r.rcpts[i].want), "receipt-bloom-changed-by-serialization", "receipt %d (%s) of %d: bloom after serialization %x, before %x", i, r.rcpts[i].mode, len(r.rcpts), lb.Bytes(), r.rcpts[i].want)
+			for _, it := range r.rcpts[i].items {
+				o.Check(lb.Contain(it.q), "bloom-false-negative-after-serialization", "receipt %d (%s) of %d read back from the receipt list does not contain %v", i, r.rcpts[i].mode, len(r.rcpts), it)
+			}
+			outs[i] = hx(lb.Bytes())
+		}
+		o.Count("receipt-list-check")
+		return strings.Join(outs, ",")
+	}
+	return "bad-op"
 }
 
 func newC26Runner() *c26Runner {
-	r := &c26Runner{}
+	r := &c26Runner{dbase: db.NewMapDB()}
 	for i := range r.slots {
 		r.slots[i] = txresult.NewLogsBloom(nil)
 		r.items[i] = map[string]c26Item{}
@@ -301,7 +511,9 @@ func (r *c26Runner) checkSlot(k int, o *Oracle) {
 	if len(r.items[k]) == 0 {
 		return
 	}
-	back := txresult.NewLogsBloomFromCompressed(lb.CompressedBytes())
+	z := lb.CompressedBytes()
+	r.hold(z, lb, r.items[k], fmt.Sprintf("slot %d after op %d", k, r.n))
+	back := txresult.NewLogsBloomFromCompressed(z)
 	o.Check(back.Equal(lb), "bloom-compress-roundtrip", "slot %d: FromCompressed(CompressedBytes()) = %x, want %x", k, back.Bytes(), lb.Bytes())
 	for _, it := range r.items[k] {
 		q := it.q
@@ -310,7 +522,7 @@ func (r *c26Runner) checkSlot(k int, o *Oracle) {
 	}
 }
 
-func (r *c26Runner) Step(t []string, o *Oracle) string {
+func (r *c26Runner) step(t []string, o *Oracle) string {
 	if len(t) < 2 {
 		return "bad-op"
 	}
@@ -447,6 +659,7 @@ func (r *c26Runner) Step(t []string, o *Oracle) string {
 		return strconv.FormatBool(res)
 	case "comp":
 		z := lb.CompressedBytes()
+		r.hold(z, lb, r.items[k], fmt.Sprintf("comp %d", k))
 		back := txresult.NewLogsBloomFromCompressed(z)
 		o.Check(back.Equal(lb), "bloom-compress-roundtrip", "slot %d: FromCompressed(CompressedBytes()) = %x, want %x", k, back.Bytes(), lb.Bytes())
 		o.Count("comp")
@@ -459,7 +672,9 @@ func (r *c26Runner) Step(t []string, o *Oracle) string {
 		if j < 0 {
 			return "bad-op"
 		}
-		nb := txresult.NewLogsBloomFromCompressed(r.slots[j].CompressedBytes())
+		zj := r.slots[j].CompressedBytes()
+		r.hold(zj, r.slots[j], r.items[j], fmt.Sprintf("copycomp %d %d", k, j))
+		nb := txresult.NewLogsBloomFromCompressed(zj)
 		r.slots[k] = nb
 		r.items[k] = map[string]c26Item{}
 		for key, it := range r.items[j] {
